@@ -39,6 +39,10 @@ def scn(reporter, mode, suites, tests, log):
                 out.append("a %d b skip" % tid)
             elif it[0] == "die":
                 out.append("a %d b sig %d" % (tid, it[1]))
+    if mode != "inproc" and (len(tests) + sum(len(t[4]) for t in tests)) % 2 == 0:
+        # the documented switch between exit() and _exit() at the end of a test process; the report may not depend
+        # on it (last line: the line numbers of the checks above stay what the model expects)
+        out.append("env CGREEN_CHILD_EXIT_WITH__EXIT 1")
     return "\n".join(out) + "\n"
 
 
